@@ -1230,10 +1230,28 @@ func (m *Dot11) ChecksumValid() bool {
 }
 
 func (m Dot11) SerializeTo(b gopacket.SerializeBuffer, opts gopacket.SerializeOptions) error {
-	buf, err := b.PrependBytes(24)
+	// the header is 10, 16, 24 or 30 bytes long, depending on the frame type (see DecodeFromBytes)
+	length := 10
+	switch m.Type.MainType() {
+	case Dot11TypeCtrl:
+		switch m.Type {
+		case Dot11TypeCtrlRTS, Dot11TypeCtrlPowersavePoll, Dot11TypeCtrlCFEnd, Dot11TypeCtrlCFEndAck:
+			length += 6
+		}
+	case Dot11TypeMgmt, Dot11TypeData:
+		length += 14
+	}
+	if m.Type.MainType() == Dot11TypeData && m.Flags.FromDS() && m.Flags.ToDS() {
+		length += 6
+	}
+	buf, err := b.PrependBytes(length)
 
 	if err != nil {
 		return err
+	}
+	// addresses shorter than 6 bytes leave zero bytes
+	for i := 4; i < len(buf); i++ {
+		buf[i] = 0
 	}
 
 	buf[0] = (uint8(m.Type) << 2) | m.Proto
